@@ -3,7 +3,7 @@
    both are parameters. *)
 From Coq Require Import List NArith Bool Lia.
 From Coq.Strings Require Import Byte.
-From EV Require Import Base.Bytes Base.SecpField Gen.Tables Model.Bech32 Model.Base58 Model.Address Proofs.Bech32 Proofs.Bech32Codes Proofs.Address.
+From EV Require Import Base.Bytes Base.SecpField Gen.Tables Model.Bech32 Model.Base58 Model.Address Proofs.Bech32 Proofs.Bech32Codes Proofs.Address Proofs.AddressRT.
 Import ListNotations.
 Open Scope N_scope.
 
@@ -42,3 +42,57 @@ Theorem C06_one_network_partial : forall (H : bytes -> bytes) (pk_valid : bytes 
   In p1 builtin -> In p2 builtin -> parse_with_params H pk_valid s p1 = AOk a1 -> parse_with_params H pk_valid s p2 = AOk a2 ->
   p1 = p2 \/ (segwit_path s p1 <> segwit_path s p2 /\ exists d, b58_decode_check H s = Ok58 d).
 Proof. exact one_network. Qed.
+
+(* Round trip.  wf_addr: a built-in network, a 33-byte blinding key that secp256k1 accepts (if any), 20-byte hashes, witness version
+   <= 16 with a program of 2..40 bytes (20 or 32 for version 0).  For every such segwit address — unblinded (bech32/bech32m) or
+   blinded (blech32/blech32m), any version, any program length — the displayed text parses back to the same address, through
+   parse_with_params of its own network and through FromStr.  The model's `display` is the independent encoder of the property;
+   that it agrees character for character with the crate's Display is the correspondence check. *)
+Theorem C06_roundtrip_segwit : forall (H : bytes -> bytes) (pk_valid : bytes -> bool) a, wf_addr pk_valid a -> is_segwit a ->
+  parse_with_params H pk_valid (display H a) (a_params a) = AOk a /\ from_str H pk_valid (display H a) = AOk a.
+Proof. exact roundtrip_segwit. Qed.
+(* the checksum the encoder appends always verifies — any HRP, any data, each of the four codes *)
+Theorem C06_checksum_verifies : forall c, In c [bech32; bech32m; blech32; blech32m] ->
+  forall pre, sym_word pre -> valid_codeword c (pre ++ checksum_syms c pre) = true.
+Proof. exact checksum_valid. Qed.
+(* regrouping 8 -> 5 -> 8 bits is the identity and produces valid padding — every byte string *)
+Theorem C06_regroup : forall data, fes_to_bytes (bytes_to_fes data) = data /\ validate_padding (bytes_to_fes data) = Ok tt.
+Proof. intros data. split; [apply fes_bytes_roundtrip|apply bytes_to_fes_padding]. Qed.
+
+(* NOT PROVED (kept visible; each is exercised on the implementation and on the model by the correspondence run):
+   C06_roundtrip (remaining clauses):
+     (a) wf_addr a -> segwit a -> from_str (upper (display a)) = AOk a                       — the upper-case form;
+     (b) wf_addr a -> a is p2pkh/p2sh -> from_str (display a) = AOk a                        — base58check forms.
+         Gap for (b): the positional-numeral lemma digits b (value b ds) = ds for base 58/256, and the dispatch side condition
+         that a base58check text of one of the nine version bytes never has the shape "<built-in HRP>1..." (FromStr tries
+         the segwit reading first); the latter is a numeric fact about the leading base58 digit for each version byte.
+   C06_canonical: parse_with_params s p = AOk a -> display a = lower s (segwit) / display a = s (base58).
+         Gap: the decode->encode direction of regrouping (bytes_to_fes (fes_to_bytes body) = body under validate_padding), uniqueness
+         of the checksum symbols given the residue (from C17_syndrome), from_char/to_char on both letter cases, and the
+         base58 numeral lemma. *)
+
+(* non-vacuity: wf_addr is inhabited by a blinded taproot-style address, and the theorem computes on it *)
+Example C06_nonvacuous :
+  let bl := match bytes_of_hex "0210948777d2b03782158a9334906dbfe63b7b8c57e75e710391bad43e654d7611"%lb with Some b => b | None => [] end in
+  let a := mkAddr LIQUID (WitnessProgram 1 (repeat x11 32)) (Some bl) in
+  wf_addr pubkey33_valid a /\ is_segwit a /\ from_str (fun _ => []) pubkey33_valid (display (fun _ => []) a) = AOk a.
+Proof. cbv zeta. split; [|split].
+  - split; [cbn; tauto|]. split; [split; [reflexivity|vm_compute; reflexivity]|]. cbn. repeat split; try lia; try (intros X; discriminate).
+  - eexists _, _. reflexivity.
+  - vm_compute. reflexivity. Qed.
+
+Check (C06_roundtrip_segwit : forall (H : bytes -> bytes) (pk_valid : bytes -> bool) a, wf_addr pk_valid a -> is_segwit a ->
+  parse_with_params H pk_valid (display H a) (a_params a) = AOk a /\ from_str H pk_valid (display H a) = AOk a).
+Check (C06_parsed_shape : forall (H : bytes -> bytes) (pk_valid : bytes -> bool) s p a,
+  parse_with_params H pk_valid s p = AOk a -> ~ known_F5 a -> shape_ok s a /\ a_params a = p).
+Check (C06_one_network_partial : forall (H : bytes -> bytes) (pk_valid : bytes -> bool) s p1 p2 a1 a2,
+  In p1 builtin -> In p2 builtin -> parse_with_params H pk_valid s p1 = AOk a1 -> parse_with_params H pk_valid s p2 = AOk a2 ->
+  p1 = p2 \/ (segwit_path s p1 <> segwit_path s p2 /\ exists d, b58_decode_check H s = Ok58 d)).
+Print Assumptions C06_parsed_shape.
+Print Assumptions C06_blinded_short_program_refuted.
+Print Assumptions C06_blinded_empty_program_refuted.
+Print Assumptions C06_from_str_is_parse.
+Print Assumptions C06_one_network_partial.
+Print Assumptions C06_roundtrip_segwit.
+Print Assumptions C06_checksum_verifies.
+Print Assumptions C06_regroup.
